@@ -1,0 +1,36 @@
+//! Settable logical clock (`Options::clock` is crate-private).
+
+use std::sync::atomic::{AtomicU64, Ordering};
+use std::sync::Arc;
+
+use crate::clock::LogicalClock;
+use crate::Options;
+
+#[derive(Debug, Default)]
+pub struct ManualClock(AtomicU64);
+
+impl ManualClock {
+	pub fn new(t: u64) -> Arc<Self> {
+		Arc::new(ManualClock(AtomicU64::new(t)))
+	}
+	pub fn set(&self, t: u64) {
+		self.0.store(t, Ordering::SeqCst);
+	}
+	pub fn get(&self) -> u64 {
+		self.0.load(Ordering::SeqCst)
+	}
+}
+
+impl LogicalClock for ManualClock {
+	fn now(&self) -> u64 {
+		self.get()
+	}
+}
+
+impl Options {
+	/// Use `clock` for commit timestamps and retention decisions.
+	pub fn with_verif_clock(mut self, clock: Arc<ManualClock>) -> Self {
+		self.clock = clock;
+		self
+	}
+}
